@@ -44,6 +44,9 @@ func runC05(p *Prog, r *Report) {
 	checkFillerOptions(p, r)
 	checkCLIChain(p, r)
 	checkTCPFlagTable(p, r, "C05.R3")
+	for _, fn := range parserSet(p) {
+		checkPayload(p, r, fn, "C05.R3")
+	}
 	checkFixedFlagSets(p, r)
 	checkVPNWiring(p, r)
 }
